@@ -15,7 +15,7 @@ import (
 
 func init() {
 	Registry["C06"] = Set{
-		Explanation: "Decides structural clauses of registry integrity: G1 every insert into the node's identity tables (names, aliases, events) is a LoadOrStore whose 'already present' edge returns an error without side effects on the table; a plain Store is accepted only for keys minted in the same function from the node's counters (pid from nextID, meta alias from MakeRef); G2 the id counters are modified only by atomic add, a PID carries the untruncated counter, and the tuple of Ref.ID words written by MakeRef is an injective function of the 64-bit counter (bit provenance: every counter bit is copied to some ID bit); G3 unregisterProcess reaches on every path the delete of the pid, of the registered name, of every alias, of every event, the exit of every meta process, the drain of relations targeting each of those identities and the drain of relations held BY the process; G4 remove-by-swap on slices overwrites the found slot with the element that is then dropped; G5 the per-process registered flag is claimed by CAS before the name insert and rolled back when the insert loses, and cleared when the name is removed.",
+		Explanation: "Decides structural clauses of registry integrity: G1 every insert into the node's identity tables (names, aliases, events) is a LoadOrStore whose 'already present' edge returns an error without side effects on the table; a plain Store is accepted only for keys minted in the same function from the node's counters (pid from nextID, meta alias from MakeRef); G2 the id counters are modified only by atomic add, a PID carries the untruncated counter, and the tuple of Ref.ID words written by MakeRef is an injective function of the 64-bit counter (bit provenance: every counter bit is copied to some ID bit); G3 unregisterProcess reaches on every path the delete of the pid, of the registered name, of every alias, of every event, the exit of every meta process, the drain of relations targeting each of those identities and the drain of relations held BY the process; G4 remove-by-swap on slices overwrites the found slot with the element that is then dropped; G5 the per-process registered flag is claimed by CAS before the name insert and rolled back when the insert loses, and cleared when the name is removed. Added while probing: G3m at every meta-process teardown site the alias is deleted from the alias table before the Terminate callback; G5 requires a compare-and-swap for a process that is already published.",
 		NotDecided: []string{
 			"uniqueness across the 2^64 wrap of the counters",
 			"process listings racing with termination",
